@@ -610,8 +610,11 @@ class Dataset(AbstractDataset, dict, OpMixin, GetSetDelAttrMixin):
                 raise TypeError("mapper must be callable")
             iterkeys = [(old, mapper(old)) for old in ds.dims]
 
-        # look all axes up before renaming any of them (swaps, chains)
+        # look all axes up before renaming any of them (swaps, chains), and refuse occupied names
         renamed = [(ds.axes[old], new) for old, new in iterkeys]
+        newnames = [new for ax, new in renamed] + [ax.name for ax in ds.axes if not any(ax is ax2 for ax2, new in renamed)]
+        if len(set(newnames)) != len(newnames):
+            raise ValueError("rename_axes: axis name already exists")
         for ax, new in renamed:
             ax.name = new
 
